@@ -295,6 +295,7 @@ Section Run.
     Let rec0 (p : nat) := map (prow par p) (seq 0 nlev).
     Hypothesis CFj : forall p, p < bm -> cf_junk hashf padz bs (failed0 p).
     Hypothesis CFr : forall p, p < bm -> cf_rec hashf padz bs (failed0 p) (rec0 p) (vs p).
+    Hypothesis CFv : forall p, p < bm -> cf_vec hashf padz bs (failed0 p) (vs p).
     Hypothesis CFs : forall p, p < bm -> cf_search hashf bs (co_nosearch o) fs0 (failed0 p) (vs p).
     (* in every stripe: at most as many damaged data blocks as intact parity levels *)
     Hypothesis Hcount : forall p, p < bm ->
@@ -369,6 +370,7 @@ Section Run.
       { intros j f i b y Hs Hr. rewrite (rinv_read k s k j f i b I (le_n k) Hs) in Hr. apply (CFdata k j f i b y Hs Hr). }
       assert (CFj' : cf_junk hashf padz bs (flat_map (fent_of hashf bs c k s) (seq 0 (length (c_disks c))))) by (rewrite Efailed; apply CFj; exact Hk).
       assert (CFr' : cf_rec hashf padz bs (flat_map (fent_of hashf bs c k s) (seq 0 (length (c_disks c)))) (map (prow (r_par s) k) (seq 0 nlev)) (vs k)) by (rewrite Efailed, Erec; apply CFr; exact Hk).
+      assert (CFv' : cf_vec hashf padz bs (flat_map (fent_of hashf bs c k s) (seq 0 (length (c_disks c)))) (vs k)) by (rewrite Efailed; apply CFv; exact Hk).
       assert (CFs' : cf_search hashf bs (co_nosearch o) fs0 (flat_map (fent_of hashf bs c k s) (seq 0 (length (c_disks c)))) (vs k)) by (rewrite Efailed; apply CFs; exact Hk).
       assert (Hcnt : length (filter (is_bad hashf bs c k s) (seq 0 (length (c_disks c)))) <= length (filter (good_level (vs k) (map (prow (r_par s) k) (seq 0 nlev))) (seq 0 nlev))).
       { rewrite (filter_ext_in2 _ _ _ (fun j _ => Ebad j)), Erec. apply Hcount. exact Hk. }
@@ -377,7 +379,7 @@ Section Run.
       assert (Hwf : forall j f i b, slot_of c k j = SFile f i b -> (N.of_nat i * bs + block_len bs (cf_size f) i <= cf_size f)%N).
       { intros j f i b Hs. apply (g_wf bs c bm Hgeom k j f i b Hs). }
       destruct (fix_step_full hashf padz truncf bs nlev reduced newino now o c fs0 k s (vs k) Hplain Hfix (Hsyn k Hk) (ri_len k s I)
-                  Hfile (Henc k Hk) (fun j f i b Hs => Hpad k j f i b Hs) CFd CFj' CFr' CFs' Hcnt Hpl Hdm Hwf)
+                  Hfile (Henc k Hk) (fun j f i b Hs => Hpad k j f i b Hs) CFd CFj' CFr' CFv' CFs' Hcnt Hpl Hdm Hwf)
         as [A [B [C [D [E [F1 [F2 [F3 [F4 [HG1 HG2]]]]]]]]]].
       set (s' := stripe_step o c fs0 s k) in *.
       (* what the step does to the file named by an arbitrary slot (p, j, f, i, b) *)
@@ -820,6 +822,7 @@ Section Run.
     Let rec0 (p : nat) := map (prow par p) (seq 0 nlev).
     Hypothesis CFj : forall p, p < bm -> cf_junk hashf padz bs (failed0 p).
     Hypothesis CFr : forall p, p < bm -> cf_rec hashf padz bs (failed0 p) (rec0 p) (vs p).
+    Hypothesis CFv : forall p, p < bm -> cf_vec hashf padz bs (failed0 p) (vs p).
     Hypothesis CFs : forall p, p < bm -> cf_search hashf bs (co_nosearch o) fs (failed0 p) (vs p).
     Hypothesis Hcount : forall p, p < bm ->
         length (filter (is_bad hashf bs c p s0) (seq 0 (length (c_disks c)))) <= length (filter (good_level (vs p) (rec0 p)) (seq 0 nlev)).
@@ -864,11 +867,12 @@ Section Run.
       { intros j f i b y Hs Hr. rewrite (read_block_same_fs bs s0 s j f i Qfs) in Hr. apply (CFdata k j f i b y Hs Hr). }
       assert (CFj' : cf_junk hashf padz bs (flat_map (fent_of hashf bs c k s) (seq 0 (length (c_disks c))))) by (rewrite Efailed; apply CFj; exact Hk).
       assert (CFr' : cf_rec hashf padz bs (flat_map (fent_of hashf bs c k s) (seq 0 (length (c_disks c)))) (map (prow (r_par s) k) (seq 0 nlev)) (vs k)) by (rewrite Efailed, Erec; apply CFr; exact Hk).
+      assert (CFv' : cf_vec hashf padz bs (flat_map (fent_of hashf bs c k s) (seq 0 (length (c_disks c)))) (vs k)) by (rewrite Efailed; apply CFv; exact Hk).
       assert (CFs' : cf_search hashf bs (co_nosearch o) fs (flat_map (fent_of hashf bs c k s) (seq 0 (length (c_disks c)))) (vs k)) by (rewrite Efailed; apply CFs; exact Hk).
       assert (Hcnt : length (filter (is_bad hashf bs c k s) (seq 0 (length (c_disks c)))) <= length (filter (good_level (vs k) (map (prow (r_par s) k) (seq 0 nlev))) (seq 0 nlev))).
       { rewrite (filter_ext_in2 _ _ _ (fun j _ => Ebad j)), Erec. apply Hcount. exact Hk. }
       destruct (check_step_full hashf padz truncf bs nlev reduced newino now o c fs k s (vs k) Hplain Hcheck (Hsyn k Hk)
-                  ltac:(rewrite Qfs; exact Hlen) Hfile (Henc k Hk) (fun j f i b Hs => Hpad k j f i b Hs) CFd CFj' CFr' CFs' Hcnt)
+                  ltac:(rewrite Qfs; exact Hlen) Hfile (Henc k Hk) (fun j f i b Hs => Hpad k j f i b Hs) CFd CFj' CFr' CFv' CFs' Hcnt)
         as [A [B [C [D [_ [rtags [ptags [T [Tr Tp]]]]]]]]].
       destruct (stripe_step_Rchk hashf padz truncf bs nlev reduced newino now o c k fs s Hcheck) as [_ [_ M]].
       set (s' := stripe_step o c fs s k) in *.
@@ -977,6 +981,7 @@ Record recoverable (hashf : bid -> N -> hval) (padz : bid -> N -> bool) (bs : N)
   rc_junk : forall p, p < bm -> cf_junk hashf padz bs (flat_map (fent_of hashf bs c p (st0 fs par)) (seq 0 (length (c_disks c))));
   rc_rec : forall p, p < bm -> cf_rec hashf padz bs (flat_map (fent_of hashf bs c p (st0 fs par)) (seq 0 (length (c_disks c))))
                                       (map (prow par p) (seq 0 nlev)) (vs p);
+  rc_vec : forall p, p < bm -> cf_vec hashf padz bs (flat_map (fent_of hashf bs c p (st0 fs par)) (seq 0 (length (c_disks c)))) (vs p);
   rc_search : forall p, p < bm -> cf_search hashf bs nosearch fs (flat_map (fent_of hashf bs c p (st0 fs par)) (seq 0 (length (c_disks c)))) (vs p);
   rc_count : forall p, p < bm ->
       length (filter (is_bad hashf bs c p (st0 fs par)) (seq 0 (length (c_disks c))))
@@ -1021,8 +1026,8 @@ Section Statements.
     /\ (forall key, fl_damaged (get_fl (r_flags (out_st out)) key) = false)
     /\ length (r_par (out_st out)) = length par.
   Proof.
-    intros Hp Hf [S1 S2 S3 S4 S5] Hl Hpl Hnl [R1 R2 R3 R4 R5] [O1 O2].
-    exact (fix_run_restores hashf padz truncf bs nlev reduced newino now o c bm fs par vs Hp Hf S2 S3 Hl Hpl S4 S5 Hnl R1 R2 R3 R4 R5 objs O1 O2 S1).
+    intros Hp Hf [S1 S2 S3 S4 S5] Hl Hpl Hnl [R1 R2 R3 Rv R4 R5] [O1 O2].
+    exact (fix_run_restores hashf padz truncf bs nlev reduced newino now o c bm fs par vs Hp Hf S2 S3 Hl Hpl S4 S5 Hnl R1 R2 R3 Rv R4 R5 objs O1 O2 S1).
   Qed.
 
 
@@ -1038,8 +1043,8 @@ Section Statements.
       exists g, fs_find (r_fs (out_st out)) j (cf_name f) = Some g
                 /\ ((ff_mtime g = cf_mtime f /\ ff_nsec g = cf_nsec f) \/ fs_find fs j (cf_name f) = Some g).
   Proof.
-    intros Hp Hf [S1 S2 S3 S4 S5] Hl Hpl Hnl [R1 R2 R3 R4 R5] [O1 O2].
-    exact (fix_run_stamps hashf padz truncf bs nlev reduced newino now o c bm fs par vs Hp Hf S2 S3 Hl Hpl S4 S5 Hnl R1 R2 R3 R4 R5 objs O1 O2 S1).
+    intros Hp Hf [S1 S2 S3 S4 S5] Hl Hpl Hnl [R1 R2 R3 Rv R4 R5] [O1 O2].
+    exact (fix_run_stamps hashf padz truncf bs nlev reduced newino now o c bm fs par vs Hp Hf S2 S3 Hl Hpl S4 S5 Hnl R1 R2 R3 Rv R4 R5 objs O1 O2 S1).
   Qed.
 
   (* the empty files and the hard links of the run are in order afterwards (also when the array has no block at all, bm = 0:
@@ -1052,8 +1057,8 @@ Section Statements.
     let out := check_run o c par fs objs (seq 0 bm) in
     forall ob, In ob objs -> ob_kind ob = KEmpty \/ ob_kind ob = KHard -> obj_good (r_fs (out_st out)) ob.
   Proof.
-    intros Hp Hf [S1 S2 S3 S4 S5] Hl Hpl Hnl [R1 R2 R3 R4 R5] [O1 O2] Hd Hnd.
-    exact (fix_run_objects hashf padz truncf bs nlev reduced newino now o c bm fs par vs Hp Hf S2 S3 Hl Hpl S4 S5 Hnl R1 R2 R3 R4 R5 objs O1 O2 Hd Hnd S1).
+    intros Hp Hf [S1 S2 S3 S4 S5] Hl Hpl Hnl [R1 R2 R3 Rv R4 R5] [O1 O2] Hd Hnd.
+    exact (fix_run_objects hashf padz truncf bs nlev reduced newino now o c bm fs par vs Hp Hf S2 S3 Hl Hpl S4 S5 Hnl R1 R2 R3 Rv R4 R5 objs O1 O2 Hd Hnd S1).
   Qed.
 
   Theorem run_check_quiet o c bm fs par vs objs :
@@ -1095,7 +1100,7 @@ Section Statements.
     /\ (out_fail out = true <-> expected <> [])
     /\ r_fs (out_st out) = fs /\ r_par (out_st out) = par.
   Proof.
-    intros Hp Hc [S1 S2 S3 S4 S5] Hl Hpr [R1 R2 R3 R4 R5] Ho.
-    exact (check_run_exact hashf padz truncf bs nlev reduced newino now o c bm fs par vs Hp Hc S2 S3 Hl S4 S5 Hpr R1 R2 R3 R4 R5 objs Ho S1).
+    intros Hp Hc [S1 S2 S3 S4 S5] Hl Hpr [R1 R2 R3 Rv R4 R5] Ho.
+    exact (check_run_exact hashf padz truncf bs nlev reduced newino now o c bm fs par vs Hp Hc S2 S3 Hl S4 S5 Hpr R1 R2 R3 Rv R4 R5 objs Ho S1).
   Qed.
 End Statements.
